@@ -34,6 +34,7 @@ var replayDrivers = []replayDriver{
 	{[]string{"loglimiter."}, "loglimiter", "limiter_replay_test.go", "TestReplayLimiter"},
 	{[]string{"headers."}, "headers", "headers_replay_test.go", "TestReplayHeaders"},
 	{[]string{"motion.FrameLoop).CopyRecent", "motion.FrameLoop).Move", "motion.FrameLoop).Reset", "motion.MotionProcessor).GetRecentFrame", "cmd/thermal-recorder.newSnapshot"}, "motion", "race_replay_test.go", "TestReplayRace"},
+	{[]string{"cmd/thermal-recorder.ParseConfig", "cmd/thermal-recorder.Config).LoadMotionConfig", "recorder.NewConfig", "throttle.NewConfig", "motion.NewConfig", "motion.validateConfig"}, "cmd/thermal-recorder", "config_replay_test.go", "TestReplayConfig"},
 	{[]string{"cmd/thermal-writer."}, "cmd/thermal-writer", "writer_replay_test.go", "TestReplayWriter"},
 	{[]string{"cmd/thermal-recorder.handleConn", "cmd/thermal-recorder.runMain"}, "cmd/thermal-recorder", "conn_replay_test.go", "TestReplayConn"},
 	{[]string{"cmd/thermal-recorder.convertRawBosonFrame", "cmd/thermal-recorder.frameParser"}, "cmd/thermal-recorder", "boson_replay_test.go", "TestReplayBoson"},
@@ -47,7 +48,7 @@ var propertyDrivers = map[string][]string{
 	"C04": {"TestReplayProcessor"}, "C12": {"TestReplayProcessor", "TestReplayFileRecorder"}, "C17": {"TestReplayProcessor"},
 	"C13": {"TestReplayProcessor", "TestReplayBoson"}, "C05": {"TestReplayThrottle"}, "C06": {"TestReplayThrottle"},
 	"C07": {"TestReplayDetector"}, "C08": {"TestReplayDetector"}, "C09": {"TestReplayDetector"}, "C15": {"TestReplayDetector"},
-	"C10": {"TestReplayFileRecorder"}, "C11": {"TestReplayFileRecorder", "TestReplayConn"}, "C14": {"TestReplayHeaders", "TestReplayWriter", "TestReplayConn"}, "C18": {"TestReplayWriter"}, "C16": {"TestReplayRace"}, "C19": {"TestReplayRing"}, "C20": {"TestReplayLimiter"},
+	"C10": {"TestReplayFileRecorder"}, "C11": {"TestReplayFileRecorder", "TestReplayConn", "TestReplayConfig"}, "C14": {"TestReplayHeaders", "TestReplayWriter", "TestReplayConn"}, "C18": {"TestReplayWriter"}, "C16": {"TestReplayRace"}, "C19": {"TestReplayRing"}, "C20": {"TestReplayLimiter"},
 }
 
 // a failing obligation in the motion processor is often caused one layer down
